@@ -77,7 +77,7 @@ theorem C20_tz (a : Alarm) (e : Env) (hs : a.sod < D) (hr : InRange (max e.sec a
       e.sec < (activeTimer a e).1.target ∧ a.target < (activeTimer a e).1.target ∧
       (addOff (max e.sec a.target) a.offset : Int) = (max e.sec a.target : Nat) + a.offset := by
   obtain ⟨nl, T, d, _, heq, h1, h2, _, h4⟩ := activeTimer_spec a e hs hr hok
-  refine ⟨nl, h4, by rw [heq]; exact h1, by rw [heq]; simp only; omega, by rw [heq]; simp only; omega, ?_⟩
+  refine ⟨nl, h4, by rw [heq]; exact h1, by rw [heq]; simp only [armed_target]; omega, by rw [heq]; simp only [armed_target]; omega, ?_⟩
   obtain ⟨r1, r2, _⟩ := hr
   simp only [addOff, U32_eq]; omega
 
@@ -92,9 +92,9 @@ theorem C20_delay_not_short (a : Alarm) (e : Env) (hs : a.sod < D)
       d + e.ms = ((activeTimer a e).1.target - e.sec) * 1000 ∧
       (e.wallMs / 1000 < U32 → e.wallMs + d = (activeTimer a e).1.target * 1000) := by
   obtain ⟨nl, T, d, _, heq, _, h2, h3, _⟩ := activeTimer_spec a e hs hr hok
-  refine ⟨d, by rw [heq], by rw [heq]; simp only; omega, by rw [heq]; exact h3, ?_⟩
+  refine ⟨d, by rw [heq]; rfl, by rw [heq]; simp only [armed_target]; omega, by rw [heq]; exact h3, ?_⟩
   intro hw
-  rw [heq]; simp only
+  rw [heq]; simp only [armed_target]
   have hsec : e.sec = e.wallMs / 1000 := by unfold Env.sec; exact w32_of_lt hw
   have hms : e.ms = e.wallMs % 1000 := rfl
   have : e.sec < T := by omega
@@ -115,15 +115,15 @@ theorem C20_targets_strictly_increase (a : Alarm) (e : Env) (hcls : a.cls ≠ .o
     ((expire a e).1.st = .running → a.target < (expire a e).1.target ∧ e.sec < (expire a e).1.target) ∧
     ((expire a e).1.st ≠ .running → (expire a e).1.timer = none) ∧
     (expire a e).2.1 = a.target := by
-  have hex : (expire a e).1 = (activeTimer { a with timer := none, st := .inited, nFired := a.nFired + 1 } e).1 := by
+  have hex : (expire a e).1 = (activeTimer { a with timer := none, st := .inited, nFired := a.nFired + 1, lastServed := a.target } e).1 := by
     unfold expire; cases hc : a.cls <;> simp_all
   refine ⟨?_, ?_, by rw [expire_served]⟩
   · intro hrun
     rw [hex] at hrun ⊢
-    rcases activeTimer_cases { a with timer := none, st := .inited, nFired := a.nFired + 1 } e with ⟨hok, _, _⟩ | ⟨_, heq⟩
+    rcases activeTimer_cases { a with timer := none, st := .inited, nFired := a.nFired + 1, lastServed := a.target } e with ⟨hok, _, _⟩ | ⟨_, heq⟩
     · obtain ⟨nl, T, d, _, heq, _, h2, _, _⟩ :=
-        activeTimer_spec { a with timer := none, st := .inited, nFired := a.nFired + 1 } e hs hr hok
-      rw [heq]; simp only at h2 ⊢; omega
+        activeTimer_spec { a with timer := none, st := .inited, nFired := a.nFired + 1, lastServed := a.target } e hs hr hok
+      rw [heq]; simp only [armed_target] at h2 ⊢; omega
     · rw [heq] at hrun; simp at hrun
   · intro hnr
     exact (expire_inv a e).idle hnr
